@@ -110,7 +110,7 @@ impl Prop for C02 {
         "C02"
     }
     fn cases(&self, ctx: &Ctx) -> u64 {
-        ctx.tier.pick(2500, 60_000)
+        ctx.tier.pick(20_000, 300_000)
     }
     fn rule(&self) -> &'static str {
         "grammar programs (token list known by construction) in decorated layouts (own-line/trailing/inline comments, directives wrapping whole statements) and re-layouts (one line, one token per line, random gaps), data-test seeds, and a pair sweep placing expression-level token classes next to each other in valid carriers, x sampled configurations incl. widths that force wrapping; oracle: reference scan of the output equals reference scan of the input under the documented normalisations (relation N in harness/src/props/wf.rs), and the same with pasfmt's own lexer. Non-trivial: program has a comment, directive or literal and output != input; distinct by hash of token-kind/length sequence + configuration."
